@@ -29,23 +29,28 @@ ASSUMPTIONS = ['the kernel encoders (kdebug_vfs_lookup, kernel_debug_string_inte
                'thread names are at most 64 bytes (MAXTHREADNAMESIZE), texts are valid UTF-8 without NUL']
 
 
-def _between(rng):
+def _between(rng, tid=None):
     r = rng.random()
     cat = worlds.catalog()
     if r < 0.5:
         s, e = domains.draw(rng, 'INTERRUPT')
         return {'k': 'sys', 'name': 'INTERRUPT', 's': s, 'e': e, 'in': []}
-    if r < 0.8:
+    if r < 0.6:
         return worlds.op_single(rng, rng.pick(cat['mach'][:20] + cat['turnstile']))
+    if r < 0.8 and tid is not None:
+        # a trace-class record that names a thread (its own, or any other): unrelated to the item it sits in
+        return {'k': 'one', 'name': rng.pick(['TRACE_DATA_THREAD_TERMINATE', 'TRACE_DATA_THREAD_TERMINATE', 'TRACE_DATA_NEWTHREAD']), 'q': 0,
+                'a': [rng.pick([tid, tid, 12345]), 77, 0, 0]}
     eid, _ = rng.pick(cat['undecoded'])
     return {'k': 'raw', 'id': eid, 'q': 0, 'a': rng.words()}
 
 
-def _decorate(rng, op, nchunks_est):
+def _decorate(rng, op, nchunks_est, tid=None):
     if rng.chance(0.45):
         btw = {}
         for _ in range(rng.randint(1, 2)):
-            btw.setdefault(str(rng.randrange(0, max(1, nchunks_est))), []).append(_between(rng))
+            # (trace-class records only between lookup chunks: between the chunks of a string they would be same-domain records)
+            btw.setdefault(str(rng.randrange(0, max(1, nchunks_est))), []).append(_between(rng, tid if op['k'] == 'lookup' else None))
         op['between'] = btw
     return op
 
@@ -70,11 +75,14 @@ def generate(rng, index, tier):
                 lookups = []
                 for _k in range(nl):
                     lk = worlds.op_lookup(rng)
-                    lookups.append(_decorate(rng, lk, (len(lk['path'].encode()) + 39) // 32))
+                    if lookups and rng.chance(0.12):
+                        lk = dict(lookups[-1])          # the same path looked up again (same vnode, same text): still a lookup
+                        lk.pop('between', None)
+                    lookups.append(_decorate(rng, lk, (len(lk['path'].encode()) + 39) // 32, tid))
                 inner = []
                 for lk in lookups:
                     if rng.chance(0.3):
-                        inner.append(_between(rng))
+                        inner.append(_between(rng, tid))
                     inner.append(lk)
                 if rng.chance(0.3):
                     inner.append(_between(rng))
